@@ -450,6 +450,7 @@ OUTPUTS = {"solution", "solution_open", "sol_tree"}
 ALL_SLOTS = set()
 for _k, _v in MEANING.items():
     ALL_SLOTS |= _v
+GEOM_SLOTS = {"subjects", "open_subjects", "clips", "paths", "path", "pattern", "rect"}
 PASS_THROUGH = re.compile(r'^(ConvertC|CRectToRect|ScaleRect|ScalePath|ScalePaths|CreateC|move|forward)')
 
 
@@ -529,6 +530,40 @@ def rule_forward(db, chk, cfg, exported):
                     slot = "val@" + g.name
                 for o in orig(a):
                     reached[o].add(slot)
+        # FORWARD.unconditional: whether a geometry input is handed to the native object may depend on that input only (`if (clp.size() > 0)
+        # AddClip(clp)`), not on the other inputs - the native operation defines what an empty subject or clip means
+        par = {}
+        for x in walk(f.body):
+            for c0 in kids(x):
+                if isinstance(c0, dict):
+                    par[id(c0)] = x
+        for c in walk(f.body):
+            if c.get("kind") != "CXXMemberCallExpr" or db.callee(c)[0] not in ("AddSubject", "AddOpenSubject", "AddClip", "AddPaths", "AddPath"):
+                continue
+            args = db.call_args(c)
+            if not args:
+                continue
+            own = orig(args[0])
+            p0 = par.get(id(c))
+            foreign = set()
+            guard = None
+            while p0 is not None:
+                if p0.get("kind") == "IfStmt":
+                    from ..astq import if_parts
+                    cond = if_parts(p0)[0]
+                    extra = {o for o in orig(cond) if o not in own and MEANING.get(o, set()) & GEOM_SLOTS}
+                    if extra:
+                        foreign |= extra
+                        guard = cond
+                p0 = par.get(id(p0))
+            n += 1
+            ok = not foreign
+            chk.instance("FORWARD.param", {"function": f.qual, "call": canon(c)[:50], "forwards": sorted(own), "guarded_by_other_inputs": sorted(foreign), "cfg": cfg}, ok=ok)
+            if not ok:
+                chk.violation("FORWARD.param", f.qual, "%s|guard" % db.callee(c)[0],
+                              "`%s` is only reached when `%s` holds, a condition on another input (%s): the exported function no longer hands %s to the native "
+                              "operation in every case in which the native API would take it" % (canon(c)[:50], canon(guard)[:70], ", ".join(sorted(foreign)), ", ".join(sorted(own))),
+                              where(c), cfg=cfg)
         for p in f.params:
             nm = p.get("name")
             if nm in OUTPUTS:
